@@ -8,7 +8,7 @@ import glob
 for f in glob.glob('/verif/tools/extract/extra_*.go'):
     if f.endswith('extra_%s.go'%P.lower()): continue
     mine+=open(f).read()
-defined=set(re.findall(r'^func (?:\([^)]*\) )?(\w+)\(',mine,re.M))
+defined=set(re.findall(r'^func (\w+)\(',mine,re.M))
 # split into top-level chunks
 def split_funcs(s):
     out=[];i=0
@@ -17,7 +17,7 @@ def split_funcs(s):
     return out
 # remove top-level funcs whose names are already defined (except emitExtra which is renamed)
 def remove_func(s,name):
-    m=re.search(r'^func (?:\([^)]*\) )?%s\('%name,s,re.M)
+    m=re.search(r'^func %s\('%name,s,re.M)
     if not m: return s
     # find matching closing brace at column 0
     end=re.search(r'^}\n',s[m.start():],re.M)
@@ -28,7 +28,7 @@ def remove_func(s,name):
         lines.pop(-2)
     return '\n'.join(lines)+s[m.start()+end.end():]
 src=re.sub(r'\bemitExtra\b','emitExtra%s'%P,src)
-for name in re.findall(r'^func (?:\([^)]*\) )?(\w+)\(',src,re.M):
+for name in re.findall(r'^func (\w+)\(',src,re.M):
     if name in defined and name!='emitExtra%s'%P:
         src=remove_func(src,name); print('dropped duplicate',name)
 src+='\nfunc init() { extraEmitters = append(extraEmitters, emitExtra%s) }\n'%P
